@@ -32,6 +32,9 @@ def rdkit_view(s):
 
 payload = json.load(sys.stdin)
 out = []
+if payload.get("prelude"):
+    from common_impl import failing_prelude
+    failing_prelude()
 for it in payload["items"]:
     del gate_log[:]
     rec = {"smiles": None, "exc": None}
